@@ -89,24 +89,71 @@ func buildSpellingCases(t *testing.T) []nodeCase {
 			add(c, "strictmode", sv, &sv, fmt.Sprintf("%q", sv))
 		}
 	}
-	// (E) back-ends "set" to nothing but white space are still implicit
-	for _, key := range []string{"crypto.storage", "storage.sql.connection"} {
-		for _, v := range []string{" ", "  ", "\t"} {
-			c := baseline(true)
-			if key == "crypto.storage" {
-				c.Crypto = "implicit"
-			} else {
-				c.SQL = "implicit"
+	// ... and not written at all: strict mode is documented to be on by default
+	for _, c := range insecureSingles() {
+		nc := nodeCase{Kind: "spelling", Cfg: c, Flag: "strictmode=<absent> (default)"}
+		nc.Spec.Unset = []string{envName("strictmode")}
+		out = append(out, nc)
+	}
+	// ... and in spellings about which neither the statement nor the documentation says what they mean (YAML 1.1 booleans, null, empty):
+	// reported, never judged
+	for _, sv := range []string{"yes", "on", "y", "YES", "", "null", "~"} {
+		for _, c := range insecureSingles() {
+			sv := sv
+			env := &sv
+			fileVal := sv // unquoted: YAML decides what it is
+			if sv == "" || sv == "null" || sv == "~" {
+				env = nil
 			}
-			v := v
-			add(c, key, fmt.Sprintf("%q", v), &v, fmt.Sprintf("%q", v))
+			first := len(out)
+			add(c, "strictmode", "unquoted "+sv, env, fileVal)
+			for i := first; i < len(out); i++ {
+				out[i].ObserveOnly = true
+			}
 		}
+	}
+	// (E) every option that strict mode requires to be set explicitly (or forbids to be empty), "set" to a value of the blank class
+	// {"", " ", "  ", tab, newline, tab+space, space CR LF, YAML null written three ways}, by environment, config file and command line.
+	// As sent, such a value names no back-end / database / URL / certificate: the option is still implicit. Besides "refused", the
+	// effective-state oracle (effective_test.go) looks at what a node that starts is really running on.
+	type mustSet struct {
+		key   string
+		unset func(c *nodeCfg)
+	}
+	for _, m := range []mustSet{
+		{"crypto.storage", func(c *nodeCfg) { c.Crypto = "implicit" }},
+		{"storage.sql.connection", func(c *nodeCfg) { c.SQL = "implicit" }},
+		{"url", func(c *nodeCfg) { c.URL = "" }},
+		{"tls.certfile", func(c *nodeCfg) { c.TLS = "disabled" }},
+		{"tls.certkeyfile", func(c *nodeCfg) { c.TLS = "disabled" }},
+	} {
+		c := baseline(true)
+		m.unset(&c)
+		for _, v := range []string{"", " ", "  ", "\t", "\n", "\t ", " \r\n"} {
+			v := v
+			add(c, m.key, fmt.Sprintf("%q", v), &v, fmt.Sprintf("%q", v))
+			nc := nodeCase{Kind: "spelling", Cfg: c, Flag: fmt.Sprintf("%s=%q (cli)", m.key, v)}
+			nc.Spec.Unset = []string{envName(m.key)}
+			nc.Spec.Args = []string{"--" + m.key + "=" + v}
+			out = append(out, nc)
+		}
+		for _, y := range []string{"null", "~", ""} {
+			add(c, m.key, "yaml-null:"+y, nil, y)
+		}
+	}
+	// the documented defaults spelled out are explicit settings: such a node starts (vacuity guard of the effective-state oracle:
+	// the database file <datadir>/sqlite.db IS open then, because the connection string names it)
+	{
+		c := baseline(true)
+		v := "sqlite:file:{DIR}/data/sqlite.db?_pragma=foreign_keys(1)&journal_mode(WAL)"
+		add(c, "storage.sql.connection", "default-spelled-out", &v, fmt.Sprintf("%q", v))
 	}
 	return out
 }
 
 func sectionSpelling(t *testing.T, r *ev.Run) {
 	needDummyVP(t)
+	effectiveGuards(t)
 	cases := buildSpellingCases(t)
 	r.Bound("spelling_cases", len(cases))
 	for idx, c := range cases {
